@@ -273,7 +273,8 @@ Definition set_b_out (x : list doc) (s : bstate) : bstate :=
 Definition set_b_ledger (x : list devcall) (s : bstate) : bstate :=
   mkB (b_strict s) (b_record_int s) (b_bundling s) (b_bundle_name s) (b_run_uid s) (b_objs_read s) (b_read_cache s) (b_asset_cache s) (b_desc_cache s) (b_dcoll_cache s) (b_cfgdesc_cache s) (b_cfgval_cache s) (b_descriptors s) (b_descriptor_objs s) (b_seq s) (b_seq_copy s) (b_monitors s) (b_sres_keys s) (b_run_open s) (b_uncollected s) (b_declared s) (b_local s) (b_int s) (b_int_counter s) (b_composed s) (b_streams s) (b_poison s) (b_next_uid s) (b_next_cb s) (w_cfg s) (w_subs s) (w_closures s) (b_out s) x.
 
-(* ------------------------------------------------------------------ state + error monad *)
+(* ------------------------------------------------------------------ state + error monad.
+   Every program below is built from: ret fail bind get modify (+ guard of_opt iterM swallow gather2). *)
 Inductive res (A : Type) := Ok (a : A) | Err (e : err).
 Arguments Ok {A} a.
 Arguments Err {A} e.
@@ -285,13 +286,14 @@ Definition bind {A B} (m : M A) (k : A -> M B) : M B := fun s =>
   | (s1, Ok a) => k a s1
   | (s1, Err e) => (s1, Err e)
   end.
-Notation "x <- m ;; k" := (bind m (fun x => k)) (at level 61, m at next level, right associativity).
-Notation "m ;;; k" := (bind m (fun _ => k)) (at level 61, right associativity).
+Local Notation "x <- m ;; k" := (bind m (fun x => k)) (at level 61, m at next level, right associativity).
+Local Notation "m ;;; k" := (bind m (fun _ => k)) (at level 61, right associativity).
 Definition get : M bstate := fun s => (s, Ok s).
 Definition modify (f : bstate -> bstate) : M unit := fun s => (f s, Ok tt).
 Definition guard (b : bool) (e : err) : M unit := if b then ret tt else fail e.
 Definition of_opt {A} (o : option A) (e : err) : M A :=
   match o with Some a => ret a | None => fail e end.
+Definition of_res {A} (r : res A) : M A := match r with Ok a => ret a | Err e => fail e end.
 Fixpoint iterM {X} (f : X -> M unit) (l : list X) : M unit :=
   match l with
   | [] => ret tt
@@ -303,10 +305,16 @@ Definition swallow (m : M unit) : M unit := fun s =>
   | (s1, Err EUnmodelled) => (s1, Err EUnmodelled)
   | (s1, _) => (s1, Ok tt)
   end.
+(* asyncio.gather of two members that do not suspend: both run, the first exception in order is raised *)
+Definition gather2 (m1 m2 : M unit) : M unit := fun s =>
+  let '(s1, r1) := m1 s in
+  let '(s2, r2) := m2 s1 in
+  (s2, match r1 with Err e => Err e | Ok _ => r2 end).
 
 Definition emit (d : doc) : M unit := modify (fun s => set_b_out (b_out s ++ [d]) s).
 Definition call (c : devcall) : M unit := modify (fun s => set_b_ledger (b_ledger s ++ [c]) s).
-Definition fresh_uid : M uid := fun s => (set_b_next_uid (S (b_next_uid s)) s, Ok (UGen (b_next_uid s))).
+Definition fresh_uid : M uid :=
+  s <- get ;; modify (set_b_next_uid (S (b_next_uid s))) ;;; ret (UGen (b_next_uid s)).
 
 (* ------------------------------------------------------------------ caches (_ensure_cached and friends) *)
 Definition cache_describe (E : env) (o : obj) : M unit :=
@@ -332,31 +340,28 @@ Definition cache_read_config (E : env) (o : obj) : M unit :=
        modify (fun s => set_b_cfgval_cache (dset (b_cfgval_cache s) o (Some (dev_cfg s o))) s)
   else modify (fun s => set_b_cfgval_cache (dset (b_cfgval_cache s) o None) s).
 
-(* asyncio.gather of [describe-part; describe_configuration; read_configuration]: every member runs, the
-   first exception (only the describe part can raise) is what the caller sees *)
-Definition ensure_cached (E : env) (o : obj) (collect : bool) : M unit := fun s =>
-  let '(s1, r1) :=
-    (if negb collect && negb (dmem (b_desc_cache s) o) then cache_describe E o
-     else if collect && negb (dmem (b_dcoll_cache s) o) then cache_describe_collect E o
-     else ret tt) s in
-  let '(s2, _) :=
-    (if negb (nmem o (b_cfgdesc_cache s1)) then cache_describe_config E o ;;; cache_read_config E o
-     else ret tt) s1 in
-  (s2, r1).
-
-(* gather over several objects: all run, first error in order is reported *)
+Definition describe_part (E : env) (o : obj) (collect : bool) : M unit :=
+  s <- get ;;
+  if negb collect && negb (dmem (b_desc_cache s) o) then cache_describe E o
+  else if collect && negb (dmem (b_dcoll_cache s) o) then cache_describe_collect E o
+  else ret tt.
+Definition config_part (E : env) (o : obj) : M unit :=
+  s <- get ;;
+  if negb (nmem o (b_cfgdesc_cache s)) then cache_describe_config E o ;;; cache_read_config E o else ret tt.
+(* gather of [describe-part; describe_configuration; read_configuration] *)
+Definition ensure_cached (E : env) (o : obj) (collect : bool) : M unit :=
+  gather2 (describe_part E o collect) (config_part E o).
 Fixpoint ensure_cached_all (E : env) (l : list obj) (collect : bool) : M unit :=
   match l with
   | [] => ret tt
-  | o :: l' => fun s =>
-      let '(s1, r1) := ensure_cached E o collect s in
-      let '(s2, r2) := ensure_cached_all E l' collect s1 in
-      (s2, match r1 with Err e => Err e | Ok _ => r2 end)
+  | o :: l' => gather2 (ensure_cached E o collect) (ensure_cached_all E l' collect)
   end.
 
 (* ------------------------------------------------------------------ event_model *)
 Definition keys_no_stream (dk : dict (option obj * ext)) : list key :=
   map fst (filter (fun kv => negb (is_stream (snd (snd kv)))) dk).
+Definition data_keys_no_stream (dk : dict (option obj * ext)) (data : dict val) : list key :=
+  filter (fun k => match dget dk k with Some (_, e) => negb (is_stream e) | None => true end) (dkeys data).
 
 (* ComposeDescriptor.__call__ *)
 Definition compose_descriptor (u : option uid) (nm : name) (data_keys : dict (option obj * ext))
@@ -380,9 +385,7 @@ Definition compose_event (d : descr) (data : dict val) (filled : list key) : M d
   u <- fresh_uid ;;
   (* keys_without_stream_keys(data, descriptor_data_keys) indexes the descriptor with every data key *)
   guard (forallb (fun k => dmem (de_keys d) k) (dkeys data)) EKeyError ;;;
-  guard (set_eqb (keys_no_stream (de_keys d))
-                 (filter (fun k => match dget (de_keys d) k with
-                                   | Some (_, e) => negb (is_stream e) | None => true end) (dkeys data)))
+  guard (set_eqb (keys_no_stream (de_keys d)) (data_keys_no_stream (de_keys d) data))
         EEventModelValidationError ;;;
   guard (subsetb filled (dkeys data)) EEventModelValidationError ;;;
   modify (fun s => set_b_seq (dset (b_seq s) (de_name d) (seq + 1)%Z) s) ;;;
@@ -391,26 +394,31 @@ Definition compose_event (d : descr) (data : dict val) (filled : list key) : M d
 (* ------------------------------------------------------------------ _prepare_stream *)
 Definition with_objname (o : obj) (d : dks) : dict (option obj * ext) :=
   map (fun kv => (fst kv, (Some o, snd kv))) d.
+Definition stream_data_keys (objs_dks : dict dks) : dict (option obj * ext) :=
+  fold_left (fun acc od => dupdate acc (with_objname (fst od) (snd od))) objs_dks [].
+Definition stream_objkeys (objs_dks : dict dks) : dict (list key) :=
+  fold_left (fun acc od => dset acc (fst od) (dkeys (snd od))) objs_dks [].
+Definition stream_cfg (cache : dict (option Z)) (objs_dks : dict dks) : dict (option Z) :=
+  fold_left (fun acc od => dset acc (fst od) (match dget cache (fst od) with Some v => v | None => None end))
+            objs_dks [].
+(* counters of streams the bundler knows but the counter dict does not: set to 1 in both dicts *)
+Definition fill_missing (names : list name) (sc : dict Z * dict Z) : dict Z * dict Z :=
+  fold_left (fun sc nm => if dmem (fst sc) nm then sc else (dset (fst sc) nm 1%Z, dset (snd sc) nm 1%Z)) names sc.
 
 Definition prepare_stream (nm : name) (objs_dks : dict dks) : M descr :=
-  s <- get ;;
   (* the loop over objs_dks: config lookups may raise KeyError before anything is composed *)
   iterM (fun od : obj * dks =>
            s <- get ;;
            _ <- of_opt (dget (b_cfgval_cache s) (fst od)) EKeyError ;;
            guard (nmem (fst od) (b_cfgdesc_cache s)) EKeyError) objs_dks ;;;
   s <- get ;;
-  let data_keys := fold_left (fun acc od => dupdate acc (with_objname (fst od) (snd od))) objs_dks [] in
-  let objkeys := fold_left (fun acc od => dset acc (fst od) (dkeys (snd od))) objs_dks [] in
-  let cfg := fold_left (fun acc od => dset acc (fst od)
-                                        (match dget (b_cfgval_cache s) (fst od) with Some v => v | None => None end))
-                       objs_dks [] in
-  d <- compose_descriptor None nm data_keys objkeys cfg ;;
+  d <- compose_descriptor None nm (stream_data_keys objs_dks) (stream_objkeys objs_dks)
+                          (stream_cfg (b_cfgval_cache s) objs_dks) ;;
   modify (fun s => set_b_descriptors (dset (b_descriptors s) nm d) s) ;;;
   emit (DDescr d) ;;;
   modify (fun s => set_b_descriptor_objs (dset (b_descriptor_objs s) nm objs_dks) s) ;;;
-  modify (fun s => if dmem (b_seq s) nm then s
-                   else set_b_seq_copy (dset (b_seq_copy s) nm 1%Z) (set_b_seq (dset (b_seq s) nm 1%Z) s)) ;;;
+  modify (fun s => let sc := fill_missing [nm] (b_seq s, b_seq_copy s) in
+                   set_b_seq_copy (snd sc) (set_b_seq (fst sc) s)) ;;;
   ret d.
 
 (* ------------------------------------------------------------------ reset_checkpoint_state / rewind *)
@@ -418,12 +426,9 @@ Definition reset_checkpoint_state : M unit :=
   modify (fun s => set_b_seq_copy (dupdate (b_seq_copy s) (b_seq s)) s).
 
 Definition rewind : M unit :=
-  modify (fun s => set_b_seq (dupdate [] (b_seq_copy s)) s) ;;;
   modify (fun s =>
-    fold_left (fun s nm => if dmem (b_seq s) nm then s
-                           else set_b_seq_copy (dset (b_seq_copy s) nm 1%Z) (set_b_seq (dset (b_seq s) nm 1%Z) s))
-              (dkeys (b_descriptor_objs s)) s) ;;;
-  modify (set_b_bundling false).
+    let sc := fill_missing (dkeys (b_descriptor_objs s)) (dupdate [] (b_seq_copy s), b_seq_copy s) in
+    set_b_bundling false (set_b_seq_copy (snd sc) (set_b_seq (fst sc) s))).
 
 (* ------------------------------------------------------------------ open_run / close_run *)
 Definition open_run : M unit :=
@@ -489,15 +494,19 @@ Definition collect_asset_docs (E : env) (o : obj) (idx : option Z) (answer : lis
   else if dv_wea (E o) then call (CCollectAssets o None) ;;; ret answer
   else ret [].
 
+(* the collision check of read(): cur against every object already in the bundle *)
+Definition check_collisions (cache : dict dks) (cur : dks) (objs_read : list obj) : M unit :=
+  iterM (fun ro : obj =>
+           known <- of_opt (dget cache ro) EKeyError ;;
+           guard (disjointb (dkeys known) (dkeys cur)) EValueError) objs_read.
+
 Definition read (E : env) (o : obj) (r : reading) (assets : list asset) : M unit :=
   s <- get ;;
   if b_bundling s then
     ensure_cached E o false ;;;
     s <- get ;;
     cur <- of_opt (dget (b_desc_cache s) o) EKeyError ;;
-    iterM (fun ro : obj =>
-             known <- of_opt (dget (b_desc_cache s) ro) EKeyError ;;
-             guard (disjointb (dkeys known) (dkeys cur)) EValueError) (b_objs_read s) ;;;
+    check_collisions (b_desc_cache s) cur (b_objs_read s) ;;;
     modify (fun s => set_b_read_cache (b_read_cache s ++ [r]) (set_b_objs_read (b_objs_read s ++ [o]) s)) ;;;
     docs <- collect_asset_docs E o None assets ;;
     modify (fun s => set_b_asset_cache (b_asset_cache s ++ docs) s)
@@ -519,7 +528,6 @@ Definition stream_keys (dk : dict (option obj * ext)) : list key :=
 
 (* one asset document; acc = (previous indices difference, data keys received) *)
 Definition pack_one (nm : option name) (d : option descr) (a : asset) (acc : Z * list key) : M (Z * list key) :=
-  let '(prev, received) := acc in
   match a with
   | AResource u =>
       s <- get ;;
@@ -540,11 +548,10 @@ Definition pack_one (nm : option name) (d : option descr) (a : asset) (acc : Z *
       nm' <- of_opt nm ERuntimeError ;;
       (* _pack_seq_nums_into_stream_datum *)
       guard seq_zero EEventModelValueError ;;;
-      let diff := (ib - ia)%Z in
-      guard (Z.eqb prev 0 || Z.eqb prev diff) EEventModelValueError ;;;
+      guard (Z.eqb (fst acc) 0 || Z.eqb (fst acc) (ib - ia)) EEventModelValueError ;;;
       c <- of_opt (dget (b_seq s) nm') EKeyError ;;
-      emit (DStreamDatum (UDev u) (UDev sres) (de_uid d') ia ib c (c + diff)%Z) ;;;
-      ret (diff, if nmem k received then received else received ++ [k])
+      emit (DStreamDatum (UDev u) (UDev sres) (de_uid d') ia ib c (c + (ib - ia))%Z) ;;;
+      ret ((ib - ia)%Z, if nmem k (snd acc) then snd acc else snd acc ++ [k])
   | ADatum u r => emit (DDatum (UDev u) (UDev r)) ;;; ret acc
   | ABad _ => fail ERuntimeError
   end.
@@ -575,38 +582,47 @@ Definition pack_external_assets (assets : list asset) (nm : option name) : M Z :
 Definition merge_readings (l : list reading) : reading :=
   fold_left (fun acc r => dupdate acc r) l [].
 
+(* {obj: self._describe_cache[obj] for obj in objs_read}  (KeyError = None) *)
+Fixpoint lookup_dks (cache : dict dks) (l : list obj) (acc : dict dks) : option (dict dks) :=
+  match l with
+  | [] => Some acc
+  | o :: l' => match dget cache o with
+               | Some dk => lookup_dks cache l' (dset acc o dk)
+               | None => None
+               end
+  end.
+
+Definition filled_keys (d : descr) : list key :=
+  map fst (filter (fun kv => is_other (snd (snd kv))) (de_keys d)).
+
+(* the descriptor of the bundle's stream: the cached one (its object set must match) or a new one *)
+Definition bundle_descriptor (E : env) (nm : name) (objs_read : list obj) : M descr :=
+  s <- get ;;
+  match dget (b_descriptors s) nm, dget (b_descriptor_objs s) nm with
+  | Some d, Some d_objs =>
+      guard (set_eqb (dkeys d_objs) objs_read) ERuntimeError ;;; ret d
+  | _, _ =>
+      iterM (fun o => ensure_cached E o (dv_collectable (E o))) objs_read ;;;
+      s <- get ;;
+      objs_dks <- of_opt (lookup_dks (b_desc_cache s) objs_read []) EKeyError ;;
+      prepare_stream nm objs_dks
+  end.
+
 Definition save (E : env) : M unit :=
   s <- get ;;
   guard (b_bundling s) EIllegalMessageSequence ;;;
   match b_objs_read s with
   | [] => modify (fun s => set_b_bundle_name None (set_b_bundling false s))
   | _ =>
-    let objs_read := b_objs_read s in
-    let desc_key := b_bundle_name s in
     modify (fun s => set_b_bundle_name None (set_b_bundling false s)) ;;;
-    (* bundling = True implies a name was stored by create except after a failed create; None is a legal key *)
-    nm <- of_opt desc_key EUnmodelled ;;
-    d <- (match dget (b_descriptors s) nm, dget (b_descriptor_objs s) nm with
-          | Some d, Some d_objs =>
-              guard (set_eqb (dkeys d_objs) objs_read) ERuntimeError ;;; ret d
-          | _, _ =>
-              iterM (fun o => ensure_cached E o (dv_collectable (E o))) objs_read ;;;
-              s <- get ;;
-              objs_dks <- (fix go (l : list obj) (acc : dict dks) : M (dict dks) :=
-                             match l with
-                             | [] => ret acc
-                             | o :: l' => dk <- of_opt (dget (b_desc_cache s) o) EKeyError ;; go l' (dset acc o dk)
-                             end) objs_read [] ;;
-              prepare_stream nm objs_dks
-          end) ;;
-    s <- get ;;
+    (* bundling without a stored name only after a failed create; a None stream name fails schema validation *)
+    nm <- of_opt (b_bundle_name s) EUnmodelled ;;
+    d <- bundle_descriptor E nm (b_objs_read s) ;;
     diff <- pack_external_assets (b_asset_cache s) (Some nm) ;;
     guard (negb (1 <? diff)%Z) ERuntimeError ;;;
-    s <- get ;;
-    let data := merge_readings (b_read_cache s) in
-    cur <- of_opt (dget (b_descriptors s) nm) EKeyError ;;
-    let filled := map fst (filter (fun kv => is_other (snd (snd kv))) (de_keys cur)) in
-    ev <- compose_event d data filled ;;
+    s' <- get ;;
+    cur <- of_opt (dget (b_descriptors s') nm) EKeyError ;;
+    ev <- compose_event d (merge_readings (b_read_cache s)) (filled_keys cur) ;;
     emit ev
   end.
 
@@ -620,11 +636,10 @@ Definition monitor (E : env) (o : obj) (nm : name) (has_args : bool) : M unit :=
   s <- get ;;
   dk <- of_opt (dget (b_desc_cache s) o) EKeyError ;;
   d <- prepare_stream nm [(o, dk)] ;;
-  s <- get ;;
-  let cb := b_next_cb s in
-  modify (fun s => set_b_next_cb (S cb) (set_w_closures (dset (w_closures s) cb (o, d)) s)) ;;;
-  modify (fun s => set_b_monitors (dset (b_monitors s) o cb) s) ;;;
-  subscribe o cb.
+  s0 <- get ;;
+  modify (fun s => set_b_next_cb (S (b_next_cb s0)) (set_w_closures (dset (w_closures s) (b_next_cb s0) (o, d)) s)) ;;;
+  modify (fun s => set_b_monitors (dset (b_monitors s) o (b_next_cb s0)) s) ;;;
+  subscribe o (b_next_cb s0).
 
 Definition unmonitor (E : env) (o : obj) : M unit :=
   guard (dv_subscribable (E o)) EAssertionError ;;;
@@ -641,7 +656,7 @@ Definition run_closure (cb : nat) (r : reading) : M unit :=
   ev <- compose_event (snd od) (dupdate [] r) [] ;;
   emit ev.
 
-Definition mon_event (E : env) (o : obj) (r : reading) : M unit :=
+Definition mon_event (o : obj) (r : reading) : M unit :=
   s <- get ;;
   iterM (fun oc : obj * nat => if Nat.eqb (fst oc) o then run_closure (snd oc) r else ret tt) (w_subs s).
 
@@ -667,72 +682,84 @@ Definition record_interruption (content : Z) : M unit :=
   end.
 
 (* ------------------------------------------------------------------ declare_stream / collect / configure *)
-Definition declare_stream (E : env) (objs : list obj) (nm : option name) (collect : bool) : M unit :=
-  n <- of_opt nm EAssertionError ;;
-  let oset := to_set objs in
-  ensure_cached_all E oset collect ;;;
-  s <- get ;;
-  objs_dks <- (fix go (l : list obj) (acc : dict dks) : M (dict dks) :=
-                 match l with
-                 | [] => ret acc
-                 | o :: l' =>
-                     dk <- (if collect
-                            then dk <- of_opt (dget (b_dcoll_cache s) o) EKeyError ;;
-                                 guard (match dk with [] => false | _ => true end) EAssertionError ;;; ret dk
-                            else of_opt (dget (b_desc_cache s) o) EKeyError) ;;
-                     go l' (dset acc o dk)
-                 end) oset [] ;;
-  modify (fun s =>
-    set_b_declared
-      ((fix upd (l : list (list obj * list name)) : list (list obj * list name) :=
-          match l with
-          | [] => [(oset, [n])]
-          | (k, v) :: l' => if list_beq Nat.eqb k oset then (k, v ++ [n]) :: l' else (k, v) :: upd l'
-          end) (b_declared s)) s) ;;;
-  _ <- prepare_stream n objs_dks ;;
-  ret tt.
+(* {obj: data_keys} over the frozenset of declared objects *)
+Fixpoint declare_dks (collect : bool) (desc dcoll : dict dks) (l : list obj) (acc : dict dks) : res (dict dks) :=
+  match l with
+  | [] => Ok acc
+  | o :: l' =>
+      if collect then
+        match dget dcoll o with
+        | None => Err EKeyError
+        | Some [] => Err EAssertionError       (* describe_collect gave no stream for the declared name *)
+        | Some dk => declare_dks collect desc dcoll l' (dset acc o dk)
+        end
+      else
+        match dget desc o with
+        | None => Err EKeyError
+        | Some dk => declare_dks collect desc dcoll l' (dset acc o dk)
+        end
+  end.
 
+(* self._declared_stream_names.setdefault(objs, []).append(name) *)
+Fixpoint declared_add (l : list (list obj * list name)) (k : list obj) (n : name) : list (list obj * list name) :=
+  match l with
+  | [] => [(k, [n])]
+  | (k', v) :: l' => if list_beq Nat.eqb k' k then (k', v ++ [n]) :: l' else (k', v) :: declared_add l' k n
+  end.
 Fixpoint declared_get (l : list (list obj * list name)) (k : list obj) : list name :=
   match l with
   | [] => []
-  | (k', v) :: l' => if list_beq Nat.eqb k k' then v else declared_get l' k
+  | (k', v) :: l' => if list_beq Nat.eqb k' k then v else declared_get l' k
   end.
+
+Definition declare_stream (E : env) (objs : list obj) (nm : option name) (collect : bool) : M unit :=
+  n <- of_opt nm EAssertionError ;;
+  ensure_cached_all E (to_set objs) collect ;;;
+  s <- get ;;
+  objs_dks <- of_res (declare_dks collect (b_desc_cache s) (b_dcoll_cache s) (to_set objs) []) ;;
+  modify (fun s => set_b_declared (declared_add (b_declared s) (to_set objs) n) s) ;;;
+  _ <- prepare_stream n objs_dks ;;
+  ret tt.
 
 Definition zmin_list (l : list Z) : option Z :=
   match l with [] => None | x :: l' => Some (fold_left Z.min l' x) end.
 
+Fixpoint collect_all_assets (E : env) (l : list (obj * Z * list asset)) (idx : option Z) : M (list asset) :=
+  match l with
+  | [] => ret []
+  | x :: l' => a <- collect_asset_docs E (fst (fst x)) idx (snd x) ;;
+               r <- collect_all_assets E l' idx ;; ret (a ++ r)
+  end.
+
+(* the stream a collect message is for *)
+Definition resolve_stream (declared : list name) (nm : option name) : M (option name) :=
+  match nm with
+  | Some n => guard (nmem n declared) EAssertionError ;;; ret (Some n)
+  | None => match declared with
+            | [] => ret None
+            | n :: rest => guard (forallb (Nat.eqb n) rest) EAssertionError ;;; ret (Some n)
+            end
+  end.
+
 Definition collect (E : env) (objs : list (obj * Z * list asset)) (nm : option name) (stream_flag : bool) : M unit :=
+  let os := map (fun x => fst (fst x)) objs in
+  let multi := (1 <? length os)%nat in
   s <- get ;;
   guard (b_run_open s) EIllegalMessageSequence ;;;
   guard (negb stream_flag) ERuntimeError ;;;
-  let os := map (fun x => fst (fst x)) objs in
   guard (match os with [] => false | _ => true end) EAssertionError ;;;      (* Msg('collect') : obj is None *)
   guard (forallb (fun o => dv_collectable (E o)) os) EAssertionError ;;;
-  let multi := (1 <? length os)%nat in
   (if multi then guard (forallb (fun o => dv_wsa (E o)) os) EAssertionError else ret tt) ;;;
   modify (fun s => set_b_uncollected (fold_left (fun acc o => nremove o acc) os (b_uncollected s)) s) ;;;
-  let declared := declared_get (b_declared s) (to_set os) in
-  stream <- (match nm with
-             | Some n => guard (nmem n declared) EAssertionError ;;; ret (Some n)
-             | None => match declared with
-                       | [] => ret None
-                       | n :: rest => guard (forallb (Nat.eqb n) rest) EAssertionError ;;; ret (Some n)
-                       end
-             end) ;;
-  (match stream with
-   | Some _ => ret tt
-   | None => if multi then fail EIllegalMessageSequence else fail EUnmodelled   (* old style: _describe_collect *)
-   end) ;;;
+  stream <- resolve_stream (declared_get (b_declared s) (to_set os)) nm ;;
+  (* without a declared stream: old style, _describe_collect *)
+  n <- (match stream with
+        | Some n => ret n
+        | None => if multi then fail EIllegalMessageSequence else fail EUnmodelled
+        end) ;;
   (if multi then iterM (fun o => call (CGetIndex o)) os else ret tt) ;;;
-  let min_index := if multi then zmin_list (map (fun x => snd (fst x)) objs) else None in
-  assets <- (fix go (l : list (obj * Z * list asset)) : M (list asset) :=
-               match l with
-               | [] => ret []
-               | x :: l' => a <- collect_asset_docs E (fst (fst x)) min_index (snd x) ;;
-                            r <- go l' ;; ret (a ++ r)
-               end) objs ;;
-  diff <- pack_external_assets assets stream ;;
-  n <- of_opt stream EKeyError ;;
+  assets <- collect_all_assets E objs (if multi then zmin_list (map (fun x => snd (fst x)) objs) else None) ;;
+  diff <- pack_external_assets assets (Some n) ;;
   (match os with
    | [o] =>
        if negb (dv_wsa (E o)) then
@@ -752,8 +779,8 @@ Definition collect (E : env) (objs : list (obj * Z * list asset)) (nm : option n
 Definition backstop_collect (E : env) (resp : list (obj * list asset)) : M unit :=
   s <- get ;;
   iterM (fun o =>
-           let answer := match find (fun oa => Nat.eqb (fst oa) o) resp with Some oa => snd oa | None => [] end in
-           swallow (collect E [(o, 0%Z, answer)] None false))
+           swallow (collect E [(o, 0%Z, match find (fun oa => Nat.eqb (fst oa) o) resp with
+                                        | Some oa => snd oa | None => [] end)] None false))
         (b_uncollected s).
 
 (* RunBundler.configure, after RunEngine._configure's guard and obj.configure(value) *)
@@ -789,7 +816,7 @@ Definition exec (E : env) (o : op) : M unit :=
   | ODrop => drop
   | OMonitor o nm has_args => monitor E o nm has_args
   | OUnmonitor o => unmonitor E o
-  | OMonEvent o r => mon_event E o r
+  | OMonEvent o r => mon_event o r
   | OKickoff o => modify (fun s => set_b_uncollected (sinsert o (b_uncollected s)) s)
   | OCollect objs nm sf => collect E objs nm sf
   | ODeclareStream objs nm c => declare_stream E objs nm c
@@ -806,10 +833,11 @@ Definition exec (E : env) (o : op) : M unit :=
   end.
 
 Definition to_result (r : res unit) : result := match r with Ok _ => ROk | Err e => RErr e end.
+Definition clear_buffers (s : bstate) : bstate := set_b_ledger [] (set_b_out [] s).
 
 Definition step (E : env) (s : bstate) (o : op) : bstate * list doc * result :=
-  let '(s1, r) := exec E o (set_b_ledger [] (set_b_out [] s)) in
-  (s1, b_out s1, to_result r).
+  let sr := exec E o (clear_buffers s) in
+  (fst sr, b_out (fst sr), to_result (snd sr)).
 
 Definition init (strict record_int : bool) : bstate :=
   mkB strict record_int false None None [] [] [] [] [] [] [] [] [] [] [] [] [] false [] [] [] None 0
@@ -820,9 +848,9 @@ Fixpoint run (E : env) (s : bstate) (h : list op) : bstate * list (list doc * li
   match h with
   | [] => (s, [])
   | o :: h' =>
-      let '(s1, docs, r) := step E s o in
-      let '(s2, rest) := run E s1 h' in
-      (s2, (docs, b_ledger s1, r) :: rest)
+      let sr := step E s o in
+      let rest := run E (fst (fst sr)) h' in
+      (fst rest, (snd (fst sr), b_ledger (fst (fst sr)), snd sr) :: snd rest)
   end.
 Definition final (E : env) (s : bstate) (h : list op) : bstate := fst (run E s h).
 Definition trace (E : env) (s : bstate) (h : list op) : list doc :=
